@@ -264,6 +264,8 @@ def check_C08(ctx, rep):
              'setting that same per-machine, per-counter flag; the recursive transition(mi, CounterZero) is guarded by that local')
     rep.rule('C08.R4', 'the once-per-call flags are indexed by the machine index and distinct per counter; they are reset (fill) only in '
              'trigger_events before any event is processed')
+    rep.rule('C08.R6', 'both counters of every machine start at zero (MachineRuntime built by Framework::new)')
+    check_initial_state(ctx, rep, 'C08.R6', only={'counter_a', 'counter_b'})
     rep.rule('C08.R5', 'order: in transition update_counter runs before schedule_action and the schedule permission is '
              'actions[mi].is_none() evaluated after the recursive CounterZero transition; without recursion it is (true, false)')
     for name, fn in F.items():
@@ -637,6 +639,8 @@ def check_C09(ctx, rep):
              'transition(mi, Signal) on every iteration except exactly when mi equals the excluded index; the second-round call is guarded '
              'by a second take().is_some() and passes the excluded index; these are the only two Signal call sites; after the first round '
              'every path to the return consumes signal_pending again (no response signal leaks into the next call)')
+    rep.rule('C09.R4', 'no signal is pending in a freshly built framework')
+    check_initial_state(ctx, rep, 'C09.R4', only={'signal_pending'})
     # R1 writers
     for name, fn in F.items():
         fa = an.get(fn)
